@@ -95,14 +95,12 @@ func runStartFail(c *fw.Ctx, idx int, r *fw.Rand) {
 		name string
 		f    func()
 	}{{"smtp-drain", env.SMTP.Drain}, {"pop3-drain", env.POP3.Drain}, {"retention-join", scanner.Join}} {
-		done := make(chan struct{})
-		go func() { st.f(); close(done) }()
-		select {
-		case <-done:
-		case <-time.After(wd):
+		// c.Within samples the goroutines twice: a state in which nothing can make progress any
+		// more is decided at once (deadlock evidence), without depending on a reproduction.
+		if ok, dump := c.Within(wd/time.Duration(c.Slow), st.f); !ok {
 			hangsSeen++
 			c.Hang("shutdown-after-start-failure:"+st.name, fmt.Sprintf("%s: after the %s listener failed to start (error reported on Notify) and shutdown was requested, %s does not return although no session was ever open",
-				desc, which, st.name), stacks())
+				desc, which, st.name), dump)
 			return
 		}
 	}
